@@ -80,6 +80,11 @@ class Sidecar:
         self.lemmas: Dict[str, Contract] = {}
         self.spec_funcs: Dict[str, ast.FunctionDef] = {}
         self.assumption_scan: List[str] = []
+        self.loop_headers: Dict[str, list] = {}
+        lp = os.path.join(cdir, 'loops.json')
+        if os.path.exists(lp):
+            import json as _json
+            self.loop_headers = _json.load(open(lp))
         for fn in sorted(os.listdir(cdir)):
             if not fn.endswith('.py'):
                 continue
@@ -308,6 +313,10 @@ class Engine(Core, Expr, Calls, Builtins, Stmts):
                 self.loop_ids[id(nd)] = n_loop
                 n_loop += 1
             stack.extend(reversed([c for c in ast.iter_child_nodes(nd) if isinstance(c, (ast.stmt, ast.ExceptHandler))]))
+        # invariants are keyed by loop ordinal: if the function no longer has the number of loops its invariants were written for, the
+        # ordinals do not identify those loops any more -> invariants are not applied, and what then fails is 'needs re-anchoring'
+        base = self.sidecar.loop_headers.get(con.key)
+        self.loops_changed = base is not None and len(base) != n_loop
         a = fnode.args
         env: Dict[str, SV] = {}
         pnames = [p.arg for p in a.posonlyargs + a.args + a.kwonlyargs]
@@ -572,10 +581,17 @@ class Engine(Core, Expr, Calls, Builtins, Stmts):
         if ob.verdict in ('refuted', 'unproved'):
             # a path that went through a repository class / function which has no contract (and could not be followed): the
             # counter-model ranges over behaviours that callee may not have, so it is no refutation - the callee needs a contract
-            need = sorted({str(a)[len('needs_contract!'):] for f in ob.pc if z3.is_expr(f) for a in _bool_consts(f) if str(a).startswith('needs_contract!')})
+            consts = [a.decl().name() for f in ob.pc if z3.is_expr(f) for a in _bool_consts(f)]
+            need = sorted({c[len('needs_contract!'):] for c in consts if c.startswith('needs_contract!')})
             if need:
                 ob.verdict = 'undecided'
                 ob.reason = f'needs contract: the path calls {", ".join(need)} (defined in the repository, not under contract); was: {ob.reason}'
+            needi = sorted({c[len('needs_invariant!'):] for c in consts if c.startswith('needs_invariant!')})
+            if needi and ob.kind != 'frame' and ob.verdict in ('refuted', 'unproved'):
+                # the path went through a loop that has no invariant (a new loop, or the loops of the function are no longer the ones
+                # the invariants were written for): everything the loop assigns is unconstrained there, so this is not a refutation
+                ob.verdict = 'undecided'
+                ob.reason = f'needs invariant: {"; ".join(needi)}; was: {ob.reason}'
         ob.time_s = time.time() - t0
         return ob
 
